@@ -1694,6 +1694,12 @@ class Interp:
             except re.error:
                 names = [1]
             return join(*[self.group_value(m, n) for n in names])
+        if isinstance(name, int) and not isinstance(name, bool):
+            try:
+                byidx = {i: n for n, i in re.compile(m.pattern.text, m.pattern.flags).groupindex.items()}
+            except re.error:
+                byidx = {}
+            name = byidx.get(name, name)
         return AV(consts=frozenset({Const(None)}), top=True, prov=frozenset({("g", m.pattern.key, name)}))
 
     def e_Subscript(self, e, env, fr):
